@@ -125,7 +125,7 @@ Section R.
       + assert (Hld : 1 <= blen (ld hdr)).
         { rewrite blen_ld_eq. unfold ld_size. pose proof (uv_size_pos (blen hdr)). lia. }
         destruct (read_header_torn hdrdec (w_maxh o) hdr (m - (51 + w_dpad o)) H63) as (e & He); [lia|].
-        exists e.
+        eexists.
         rewrite take_app_ge by (rewrite blen_pragma; lia). rewrite blen_pragma.
         rewrite pragma_is_ld at 1.
         rewrite (read_header_ld hdrdec default_maxh pragma_body r0 2) by
